@@ -52,6 +52,10 @@ history = {
  'C01l':'frozen-other','C02l':'frozen','C03l':'after','C04l':'frozen-other','C05l':'frozen-other','C06l':'frozen','C07l':'frozen','C08l':'after',
  'C09l':'frozen','C10l':'frozen-other','C11l':'frozen-other','C13l':'frozen','C14l':'frozen','C15l':'frozen-other','C16l':'frozen-other','C17l':'frozen',
  'C18l':'after','C19l':'frozen','C20l':'frozen',
+ # round m: rules frozen at tag rules-frozen-for-round-m-seeds; first run in refs/round_m_first_run.txt
+ 'C01m':'after','C02m':'frozen-other','C03m':'after','C04m':'frozen','C05m':'frozen','C06m':'after','C07m':'frozen','C08m':'frozen-other',
+ 'C09m':'frozen-other','C10m':'frozen-other','C11m':'after','C13m':'frozen','C14m':'frozen','C15m':'frozen','C16m':'frozen','C17m':'frozen',
+ 'C18m':'after','C19m':'frozen','C20m':'after',
 }
 seeds = sys.argv[1:] or sorted(d for d in os.listdir('seeded') if os.path.isdir('seeded/'+d))
 out = subprocess.run(['tools/run_seeds.sh'] + seeds, capture_output=True, text=True).stdout
